@@ -180,11 +180,36 @@ def planet_oracle(P, j):
 
 # --------------------------------------------------------------------- planets
 
+def laskar_obliquity(j):
+    """Mean obliquity of the ecliptic of date, radians: Laskar's polynomial as printed in Meeus
+    (22.3), written out here so that the ecliptic -> equator rotation of the oracle does not
+    lean on the library's own obliquity routine."""
+    u = (j - 2451545.0) / 3652500.0
+    sec = (-4680.93 + (-1.55 + (1999.25 + (-51.38 + (-249.67 + (-39.05 + (7.12 + (27.87 + (5.79 + 2.45 * u)
+           * u) * u) * u) * u) * u) * u) * u) * u) * u
+    return math.radians(23.0 + 26.0 / 60.0 + (21.448 + sec) / 3600.0)
+
+
+def recycled_epoch(j, warm):
+    """An Epoch object that already served another date in the same routine and was then moved
+    with set() (a caller stepping through an ephemeris re-uses one Epoch)."""
+    e = Epoch(j - 31.4 if j > 1.0e6 else j + 31.4)
+    try:
+        warm(e)
+    except Exception:
+        pass
+    e.set(j)
+    return e
+
+
 def _planet_call(case):
     name = case["planet"]
     P = planet_class(name)
     j = S.jde_from_year(case["year"])
-    e = Epoch(j)
+    if int(abs(case["year"]) * 1013.0) % 4 == 0:
+        e = recycled_epoch(j, P.geocentric_position)
+    else:
+        e = Epoch(j)
     j0 = e.jde()
     ra, dec, elon = P.geocentric_position(e)
     site = name + ".geocentric_position"
@@ -204,7 +229,7 @@ def _planet_labels(name, year, dist):
 def body_planet_dir(case):
     name, P, j, site, ra, dec, elon = _planet_call(case)
     g, tau0, tau = planet_oracle(P, j)
-    eps = mean_obliquity(Epoch(j)).rad()
+    eps = laskar_obliquity(j)
     want = unit(tb.rot_x(g, eps))
     got = S.unit_vector(ra(), dec())
     off = S.sep_vectors(got, want)
@@ -273,7 +298,10 @@ def pluto_vec(j):
 def body_pluto(case):
     year = case["year"]
     j = S.jde_from_year(year)
-    e = Epoch(j)
+    if int(abs(year) * 1013.0) % 3 == 0:
+        e = recycled_epoch(j, Pluto.geocentric_position)
+    else:
+        e = Epoch(j)
     j0 = e.jde()
     site = "Pluto.geocentric_position"
     try:
@@ -327,9 +355,12 @@ def body_minor(case):
     cls = e_class(ecc)
     site = "Minor.geocentric_position"
     t_ep = Epoch(tp)
-    e = Epoch(j)
-    tp0, j0 = t_ep.jde(), e.jde()
     m = Minor(q, ecc, Angle(case["i"]), Angle(case["node"]), Angle(case["peri"]), t_ep)
+    if int(abs(j) * 7.0) % 4 == 0:
+        e = recycled_epoch(j, m.geocentric_position)
+    else:
+        e = Epoch(j)
+    tp0, j0 = t_ep.jde(), e.jde()
     labels = ["minor:" + cls]
     try:
         ra, dec, elon = m.geocentric_position(e)
